@@ -227,6 +227,9 @@ func (h *harness) buildCase(name string) corr.Case {
 		if p.marker {
 			mk = 1
 		}
+		if h.sc.Relay != "" {
+			p.ssrcIn = w.ssrcIn
+		}
 		fb := append([]byte{}, w.fan...)
 		for r := range fb {
 			if masked[j][r] && fb[r] != '-' {
@@ -238,7 +241,7 @@ func (h *harness) buildCase(name string) corr.Case {
 			fan = "."
 		}
 		add(float64(w.wb), fmt.Sprintf("pipe write %d %d %d %d %d %d %s %s", p.media, p.pt, p.seq, p.ts, mk, p.ssrcIn,
-			corr.Hex(digest(genPayload(sc.Seed, j, p.size))), fan), fan)
+			corr.Hex(digest(genPayload(sc.Seed, h.pwid[j], p.size))), fan), fan)
 	}
 	sort.SliceStable(items, func(i, j int) bool {
 		if items[i].key != items[j].key {
@@ -486,12 +489,230 @@ func (h *harness) checkProperty(c *corr.Ctx) {
 		for i, rc := range rd.recs {
 			if rc.alias != nil && rc.wid >= 0 && rc.why == "" {
 				p := h.pk[rc.wid]
-				if !bytes.Equal(rc.alias, genPayload(sc.Seed, rc.wid, p.size)) {
+				if !bytes.Equal(rc.alias, genPayload(sc.Seed, h.pwid[rc.wid], p.size)) {
 					viol("a delivered payload is not overwritten by later packets", "c01-retention",
 						fmt.Sprintf("%s: the payload slice of callback %d (write %d) changed after the callback returned", who, i, rc.wid))
 					break
 				}
 			}
 		}
+	}
+}
+
+// ---------------------------------------------------------------------------------------------
+// second direction: publisher → server session (hop 1), then the re-indexing for hop 2
+// ---------------------------------------------------------------------------------------------
+
+// checkRelay evaluates the property on what the server session's callback received from the publisher.
+func (h *harness) checkRelay(c *corr.Ctx) {
+	sc := h.sc
+	viol := func(clause, key, detail string) {
+		c.Violate(corr.Violation{Property: "C01", Clause: clause, Key: key, Where: "recording client → client queue → transport → server session callback", Input: sc, Detail: detail})
+	}
+	who := "publisher (" + sc.Relay + ")"
+	ssrcOf := map[[2]int]uint32{}
+	last := map[[2]int]int{}
+	prev := -1
+	var got []int
+	for i, rc := range h.relayRecs {
+		if rc.wid < 0 {
+			viol("every packet the session receives was written by the publisher to that media and format", "c01-relay-foreign",
+				fmt.Sprintf("%s: server callback %d (media %d format %d seq %d): %s", who, i, rc.m, rc.pt, rc.seq, rc.why))
+			continue
+		}
+		if rc.why != "" {
+			viol("identical payload, marker, timestamp, sequence number and payload type", "c01-relay-fields",
+				fmt.Sprintf("%s: server callback %d = write %d: %s", who, i, rc.wid, rc.why))
+		}
+		if h.pubOut[rc.wid] != 'a' {
+			viol("every received packet was accepted by the publisher's queue", "c01-relay-not-pushed",
+				fmt.Sprintf("%s: server callback %d = write %d whose WritePacketRTP returned %q", who, i, rc.wid, h.pubOut[rc.wid]))
+		}
+		k := [2]int{rc.m, int(rc.pt)}
+		if s, ok := ssrcOf[k]; ok && s != rc.ssrc {
+			viol("one SSRC per format", "c01-relay-ssrc", fmt.Sprintf("%s: media %d format %d arrives with SSRC %d and %d", who, rc.m, rc.pt, s, rc.ssrc))
+		}
+		ssrcOf[k] = rc.ssrc
+		if sc.Relay == "udp" {
+			if p, ok := last[k]; ok && rc.wid <= p {
+				key := "c01-relay-order"
+				if rc.wid == p {
+					key = "c01-relay-duplicate"
+				}
+				viol("over UDP the received sequence is an in-order subsequence of what was written", key,
+					fmt.Sprintf("%s: server callback %d is write %d after write %d", who, i, rc.wid, p))
+			}
+			last[k] = rc.wid
+		} else {
+			if rc.wid <= prev {
+				key := "c01-relay-order"
+				if rc.wid == prev {
+					key = "c01-relay-duplicate"
+				}
+				viol("packets arrive in the order written and at most once", key,
+					fmt.Sprintf("%s: server callback %d is write %d after write %d", who, i, rc.wid, prev))
+			}
+			prev = rc.wid
+		}
+		got = append(got, rc.wid)
+	}
+	if sc.Relay == "tcp" {
+		var acc []int
+		for wid, o := range h.pubOut {
+			if o == 'a' {
+				acc = append(acc, wid)
+			}
+		}
+		for i := 0; i < len(acc) && i < len(got); i++ {
+			if acc[i] != got[i] {
+				viol("over TCP-based transports no packet is missing unless a write-queue-full error was returned to the writer", "c01-relay-missing",
+					fmt.Sprintf("%s: server callback %d is write %d, the %d-th accepted write is %d", who, i, got[i], i, acc[i]))
+				break
+			}
+		}
+		if len(got) < len(acc) {
+			viol("over TCP-based transports no packet is missing unless a write-queue-full error was returned to the writer", "c01-relay-missing-tail",
+				fmt.Sprintf("%s: %d writes were accepted, the server session received %d", who, len(acc), len(got)))
+		}
+	}
+}
+
+// buildPubCase: hop 1 on the model (second instance, domain word `pub`): one reader = the server session.
+func (h *harness) buildPubCase(name string) corr.Case {
+	sc := h.sc
+	ssrcOf := map[[2]int]uint32{}
+	for _, rc := range h.relayRecs {
+		if rc.wid >= 0 {
+			ssrcOf[[2]int{rc.m, int(rc.pt)}] = rc.ssrc
+		}
+	}
+	var ms []string
+	for m, pts := range sc.Medias {
+		var fs []string
+		for _, pt := range pts {
+			fs = append(fs, fmt.Sprintf("%d:%d", pt, ssrcOf[[2]int{m, pt}]))
+		}
+		ms = append(ms, strings.Join(fs, ","))
+	}
+	kind := "t"
+	if sc.Relay == "udp" {
+		kind = "u"
+	}
+	qs := sc.PubCap
+	if qs == 0 {
+		qs = 256
+	}
+	var items []item
+	ord := 0
+	add := func(key float64, op, impl string) {
+		items = append(items, item{key: key, ord: ord, op: op, impl: impl})
+		ord++
+	}
+	add(-3, fmt.Sprintf("pub init %d %s %s", qs, strings.Join(ms, ";"), kind), "ok")
+	for m := range sc.Medias {
+		add(-2, fmt.Sprintf("pub setup 0 %d", m), fmt.Sprintf("ch %d", 2*m))
+	}
+	add(-1, "pub play 0", "ok")
+	for wid, o := range h.pubOut {
+		if o != 'a' && o != 'f' {
+			continue
+		}
+		p := h.pkPub[wid]
+		mk := 0
+		if p.marker {
+			mk = 1
+		}
+		add(float64(h.pubStamp[wid]), fmt.Sprintf("pub write %d %d %d %d %d %d %s %c", p.media, p.pt, p.seq, p.ts, mk, p.ssrcIn,
+			corr.Hex(digest(genPayload(sc.Seed, wid, p.size))), o), string(o))
+	}
+	// the model numbers writes by position among the `write` operations
+	pos := map[int]int{}
+	n := 0
+	for wid, o := range h.pubOut {
+		if o == 'a' || o == 'f' {
+			pos[wid] = n
+			n++
+		}
+	}
+	for _, a := range h.relayArr {
+		if j, ok := pos[a.wid]; ok && h.pubOut[a.wid] == 'a' {
+			add(float64(a.stamp), fmt.Sprintf("pub arrive 0 %d", j), "ok")
+		}
+	}
+	sort.SliceStable(items, func(i, j int) bool {
+		if items[i].key != items[j].key {
+			return items[i].key < items[j].key
+		}
+		return items[i].ord < items[j].ord
+	})
+	cs := corr.Case{Name: name, Nontrivial: true}
+	for _, it := range items {
+		cs.Ops = append(cs.Ops, it.op)
+		cs.Impl = append(cs.Impl, it.impl)
+	}
+	remap := func(rs []rec) []rec {
+		out := make([]rec, len(rs))
+		for i, rc := range rs {
+			out[i] = rc
+			if j, ok := pos[rc.wid]; ok {
+				out[i].wid = j
+			} else {
+				out[i].wid = -1
+			}
+		}
+		return out
+	}
+	if sc.Relay == "udp" {
+		cs.Ops = append(cs.Ops, "pub drain 0")
+		cs.Impl = append(cs.Impl, "ok")
+		for m, pts := range sc.Medias {
+			for _, pt := range pts {
+				var sel []rec
+				for _, rc := range h.relayRecs {
+					if rc.m == m && int(rc.pt) == pt {
+						sel = append(sel, rc)
+					}
+				}
+				cs.Ops = append(cs.Ops, fmt.Sprintf("pub cbsf 0 %d %d", m, pt))
+				cs.Impl = append(cs.Impl, recsLine(remap(sel)))
+			}
+		}
+	} else {
+		cs.Ops = append(cs.Ops, "pub drain 0")
+		cs.Impl = append(cs.Impl, fmt.Sprintf("ok %d", len(h.relayRecs)))
+		cs.Ops = append(cs.Ops, "pub cbs 0")
+		cs.Impl = append(cs.Impl, recsLine(remap(h.relayRecs)))
+	}
+	return cs
+}
+
+// reindex: from here on "write j" is the j-th ServerStream.WritePacketRTP made by the relaying session.
+func (h *harness) reindex() {
+	h.pkPub = h.pk
+	stage := map[int]int{}
+	pk2 := make([]pktMeta, len(h.writes))
+	for j, wid := range h.pwid {
+		stage[wid] = j
+		pk2[j] = h.pkPub[wid]
+	}
+	h.pk = pk2
+	for _, rd := range h.readers {
+		for i := range rd.recs {
+			if rd.recs[i].wid >= 0 {
+				if j, ok := stage[rd.recs[i].wid]; ok {
+					rd.recs[i].wid = j
+				} else {
+					rd.recs[i].why = fmt.Sprintf("publisher write %d never reached the stream", rd.recs[i].wid)
+					rd.recs[i].wid = -1
+				}
+			}
+		}
+		var arr []aobs
+		for _, a := range rd.arrivals {
+			if j, ok := stage[a.wid]; ok {
+				arr = append(arr, aobs{wid: j, stamp: a.stamp})
+			}
+		}
+		rd.arrivals = arr
 	}
 }
